@@ -240,6 +240,18 @@ func checkC02(c *Ctx) {
 	r.Rule("R02m", "each string the URL binders convert is an element of the URL's own value list (r.PathValue / r.URL.Query()), never a derived string", 3)
 	urlValueProvenance(c, ep, "R02m")
 	c02PathVariableAgreement(c)
+	r.Rule("R02o", "the server decodes a request body for exactly POST, PUT and PATCH (shared with C01/R01b): a bodiless verb's URL-bound request is not refused, or overwritten, because of body bytes", 1)
+	if _, lit := middlewareLit(ep); lit != nil {
+		verbs := guardConstSet(ep.Info, lit.Body, func(call *ast.CallExpr) bool {
+			f := ep.CalleeOf(call)
+			return f != nil && ep.RecName(f) == "bindDataBasedOnContentType"
+		})
+		r.CheckD(sameSet(verbs, []string{"PATCH", "POST", "PUT"}), "R02o", "BindingMiddleware reaches the body decoder exactly for PATCH, POST, PUT", ep.GenPos(lit.Pos()),
+			fmt.Sprintf("the emitted BindingMiddleware decodes a body for the verbs %v: for GET/DELETE routes every field is carried by the URL (generation-time coverage), so body bytes that do not decode into the message turn a well-formed URL request into a 400, and decodable ones are decoded into fields the URL then overwrites", verbs), map[string]any{"verbs": verbs})
+	} else {
+		r.Unres("R02o", "BindingMiddleware handler literal", "", "not found")
+	}
+	c07HandlerPropertyNames(c, "R02p")
 	c02ParamTableFidelity(c)
 }
 
@@ -585,11 +597,15 @@ func checkTSQueryBinding(c *Ctx) {
 }
 
 // c02Presence: R02g — a URL parameter is skipped only when it is absent.
-func c02Presence(c *Ctx, ep *EmittedPkg) {
+func c02Presence(c *Ctx, ep *EmittedPkg, rid ...string) {
 	r := c.R
+	rule := "R02g"
+	if len(rid) > 0 {
+		rule = rid[0]
+	}
 	fd := ep.Funcs["bindQueryParams"]
 	if fd == nil {
-		r.Unres("R02g", "bindQueryParams", "", "not emitted")
+		r.Unres(rule, "bindQueryParams", "", "not emitted")
 		return
 	}
 	n := 0
@@ -633,12 +649,12 @@ func c02Presence(c *Ctx, ep *EmittedPkg) {
 					okCond = true // unknown field: nothing to bind
 				}
 			}
-			r.Check(okCond, "R02g", "bindQueryParams skips a parameter only under: "+cond, ep.GenPos(ifs.Pos()),
+			r.Check(okCond, rule, "bindQueryParams skips a parameter only under: "+cond, ep.GenPos(ifs.Pos()),
 				fmt.Sprintf("bindQueryParams leaves a query parameter unbound when `%s`: that is not an absence test on the values of the key (len(query[name]) == 0), so a parameter that is present with an empty value (?page=) is treated as not supplied — an unparsable value is dispatched as zero instead of answered with 400, and a required empty string is reported missing", cond))
 		}
 		return true
 	})
-	r.Check(n >= 1, "R02g", "bindQueryParams has an absence test", ep.GenPos(fd.Pos()), "no skip condition found in the parameter loop")
+	r.Check(n >= 1, rule, "bindQueryParams has an absence test", ep.GenPos(fd.Pos()), "no skip condition found in the parameter loop")
 }
 
 // binderViolationFields: every FieldViolation built in the URL binders names the
